@@ -15,7 +15,9 @@
     Not covered by a theorem: the read-back through a record of a packet (set_raw_name then name()),
     decided each run by an exhaustive sweep of short names plus boundary lengths. *)
 From DV Require Import Model.Base Model.Parser Model.Header Model.Readers Model.Uncompress Model.Mutate
-  Model.Gen Model.Text Spec.NameSpec Spec.RecordSpec Proofs.Hoare Proofs.SynthTotal Proofs.NameText.
+  Model.Gen Model.Text Spec.NameSpec Spec.RecordSpec Proofs.Hoare Proofs.SynthTotal Proofs.NameText
+  Spec.PacketSpec Spec.PlainSpec Proofs.WalkSkip Proofs.PlainWf Proofs.InsertSpec Proofs.HeaderInv Proofs.WalkInv Proofs.RenameCursor Proofs.ReadersLabels Proofs.QuestionSpec.
+From Coq Require Import ZifyBool ZifyNat ZifyN.
 
 Theorem C14_from_str_total : forall name zone, nopanic (raw_name_from_str name zone).
 Proof. exact raw_name_from_str_total. Qed.
@@ -92,3 +94,42 @@ Proof. split; [repeat constructor; try discriminate; cbn; lia|cbn; lia]. Qed.
 
 Example C14_sample : raw_name_from_str [119;119;119;46;97]%N (Some [3;99;111;109;0]%N) = Ok [3;119;119;119;1;97;3;99;111;109;0]%N.
 Proof. vm_compute. reflexivity. Qed.
+
+(** ** Read-back through a record of a packet.
+
+    On an object in pointer-free form (the invariant [dinv] of C08, which every operation that decompresses establishes), a
+    successful [set_raw_name] with the wire name of the non-empty labels [ls], through a cursor on a non-OPT record of a
+    record section, leaves that cursor on the record, whose raw name is the wire name given and whose [name()] is the labels
+    joined by dots, lower-cased. *)
+Theorem C14_set_name_reads_back : forall ls v sec l1 r x l2 n s' qls qt lA lN lR,
+  dinv v -> Forall (fun l : bytes => l <> []) ls -> bytes_ok (wire_of_labels ls) ->
+  reading (pp_packet v) qls qt lA lN lR -> sec = SAnswer \/ sec = SNameServers \/ sec = SAdditional ->
+  sec_list sec lA lN lR = l1 ++ (r, x) :: l2 -> is_opt r = false ->
+  m_set_raw_name (wire_of_labels ls) (v, cur_on sec r n) = (s', Ok tt) ->
+  it_name (fst s') (snd s') = Ok (ascii_lowercase (dotted ls)) /\
+  it_copy_raw_name (fst s') (snd s') = Ok (wire_of_labels ls, length (wire_of_labels ls)).
+Proof. exact set_name_reads_back. Qed.
+Print Assumptions C14_set_name_reads_back.
+
+(** With C14_ldh_roundtrip: for letter-digit-hyphen-underscore labels the wire name is what the text conversion returns for
+    the labels joined by dots, so a record given the converted name reads back as the lower-cased text. *)
+Theorem C14_text_reads_back : forall ls v sec l1 r x l2 n s' qls qt lA lN lR w,
+  Forall ldh_label ls -> ls <> [] -> length (wire_of_labels ls) <= 253 ->
+  raw_name_from_str (dotted ls) None = Ok w ->
+  dinv v -> reading (pp_packet v) qls qt lA lN lR -> sec = SAnswer \/ sec = SNameServers \/ sec = SAdditional ->
+  sec_list sec lA lN lR = l1 ++ (r, x) :: l2 -> is_opt r = false ->
+  m_set_raw_name w (v, cur_on sec r n) = (s', Ok tt) ->
+  it_name (fst s') (snd s') = Ok (ascii_lowercase (dotted ls)).
+Proof.
+  intros ls v sec l1 r x l2 n s' qls qt lA lN lR w Hldh Hne Hlen Hw Hd Rd Hsec El Hno Hrun.
+  destruct (ldh_roundtrip ls Hldh Hlen) as (_ & Hfs & _ & Hcn). rewrite (Hfs Hne) in Hw. injection Hw as <-.
+  assert (Hnel : Forall (fun l : bytes => l <> []) ls).
+  { destruct Hcn as [_ Hna]. pose proof (name_at_labels_ok _ _ _ _ _ _ _ _ Hna) as Hok. eapply Forall_impl; [|exact Hok]. intros l (Hl & _). exact Hl. }
+  assert (Hbw : bytes_ok (wire_of_labels ls)).
+  { apply QuestionSpec.bytes_ok_wire; [destruct Hcn as [_ Hna]; exact (name_at_labels_ok _ _ _ _ _ _ _ _ Hna)|].
+    eapply Forall_impl; [|exact Hldh]. intros l (_ & _ & Hok). unfold bytes_ok.
+    clear -Hok. induction l as [|c l IH]; [constructor|]. cbn [forallb] in Hok. apply andb_true_iff in Hok.
+    destruct Hok as [Hc Hl]. constructor; [unfold ldh in Hc; lia|apply IH; exact Hl]. }
+  exact (proj1 (set_name_reads_back ls v sec l1 r x l2 n s' qls qt lA lN lR Hd Hnel Hbw Rd Hsec El Hno Hrun)).
+Qed.
+Print Assumptions C14_text_reads_back.
